@@ -16,6 +16,7 @@ import (
 	"fmt"
 	"image"
 	"io/ioutil"
+	"math"
 	"net/http"
 	"net/url"
 	"os"
@@ -2248,6 +2249,11 @@ func (d *Data) persistNextLabel() error {
 func (d *Data) newLabel(v dvid.VersionID) (uint64, error) {
 	d.mlMu.Lock()
 	defer d.mlMu.Unlock()
+
+	// The label counters only move forward: refuse to wrap around to label 0.
+	if d.NextLabel == math.MaxUint64 || (d.NextLabel == 0 && d.MaxRepoLabel == math.MaxUint64) {
+		return 0, fmt.Errorf("no labels left to allocate in data %q", d.DataName())
+	}
 
 	// Increment and store if we don't have an ephemeral new label start ID.
 	if d.NextLabel != 0 {
